@@ -72,6 +72,10 @@ def rand_template(rnd, nargs):
         used.append(nargs + 1)          # a missing argument
     if 0.1 <= k < 0.15:
         used.append(0)                  # $0
+    if used and rnd.random() < 0.3:
+        # repeated placeholders: "unused" is per ARGUMENT, not a count of placeholder occurrences
+        for _ in range(rnd.randint(1, 2)):
+            used.insert(rnd.randint(0, len(used)), rnd.choice([u for u in used]))
     items = []
     for n in used:
         items.append("$%d AS c%d" % (n, len(items)))
